@@ -2175,6 +2175,13 @@ size_t ZSTD_decompressStream(ZSTD_DStream* zds, ZSTD_outBuffer* output, ZSTD_inB
                             ZSTD_getFrameHeader_advanced(&zds->fParams, zds->headerBuffer, zds->lhSize, zds->format),
                             "First few bytes detected incorrect" );
                         /* return hint input size */
+                        if ( (zds->format == ZSTD_f_zstd1)
+                          && ( (zds->lhSize < ZSTD_FRAMEIDSIZE)
+                            || ((MEM_readLE32(zds->headerBuffer) & ZSTD_MAGIC_SKIPPABLE_MASK) == ZSTD_MAGIC_SKIPPABLE_START) ) ) {
+                            /* frame type not known yet, or skippable frame :
+                             * no block header follows a skippable header, and its content may be empty */
+                            return hSize - zds->lhSize;   /* remaining header bytes */
+                        }
                         return (MAX((size_t)ZSTD_FRAMEHEADERSIZE_MIN(zds->format), hSize) - zds->lhSize) + ZSTD_blockHeaderSize;   /* remaining header bytes + next block header */
                     }
                     assert(ip != NULL);
